@@ -114,6 +114,12 @@ def build(env, shape, tag='d'):
         else:
             env.assume(lo <= hi)
         return Spec(k, dt=dt.IntRange(lo, hi), lo=lo, hi=hi, big=shape.get('big', False))
+    if k == 'scaled' and 'fixed' in shape:
+        # limits far from zero as concrete grid indices (symbolic indices of that size make z3 diverge)
+        s = shape['scale']
+        klo, khi = shape['fixed']
+        lo, hi = klo * s, khi * s
+        return Spec(k, dt=dt.ScaledInteger(s, lo, hi), scale=s, klo=klo, khi=khi, lo=lo, hi=hi)
     if k == 'scaled':
         s = shape['scale']
         klo = env.int(tag + '.klo', -KBOX, KBOX)
@@ -185,6 +191,9 @@ class Cand:
 
 def make(env, desc, tag='v', box=None):
     if isinstance(desc, str):
+        if box and box.get('near') is not None and desc in ('int', 'float'):
+            c, w = box['near']
+            return Cand(desc, env.int(tag, c - w, c + w) if desc == 'int' else env.real(tag, c - w, c + w))
         if box and box.get('i') and desc == 'int':
             return Cand(desc, env.int(tag, -box['i'], box['i']))
         if box and box.get('f') and desc == 'float':
@@ -373,7 +382,7 @@ def judge_accept(env, spec, cand, r, key, wire=True, limits=True, prev=None):
         elif limits:
             env.check(absv(r - x) < s, K + '/denotes-other-value')
         else:
-            env.check(absv(r - x) * 2 <= s, K + '/denotes-other-value')
+            env.check(absv(r - x) * 2 <= s * (1 + 1e-6), K + '/denotes-other-value')   # (1e-6: ties decided by IEEE rounding of the quotient)
         return
     if k == 'bool':
         if not env.check(is_number(cand), K + f'/accepted-{cand.desc}'):
